@@ -35,7 +35,9 @@ def z3_query(constraints, goal, timeout_ms):
         s.add(c)
     s.add(goal)
     t = time.time()
-    r = str(s.check())
+    from .symtrace import bounded_check
+
+    r = str(bounded_check(s, int(timeout_ms)))
     dt = time.time() - t
     model = s.model() if r == "sat" else None
     return r, model, dt, s
